@@ -1157,7 +1157,6 @@ class ReactionSet:
     
     """
     __slots__ = (*Reaction.__slots__, '_parent_index')
-    copy = Reaction.copy
     phases = MaterialIndexer.phases
     _get_stoichiometry_by_mol = Reaction._get_stoichiometry_by_mol
     _get_stoichiometry_by_wt = Reaction._get_stoichiometry_by_wt
@@ -1182,6 +1181,18 @@ class ReactionSet:
         self._X = np.array([i.X for i in reactions])
         reactant_index = [i._reactant_index for i in reactions]
         self._reactant_index = tuple(reactant_index) if self._phases else np.array(reactant_index)
+    
+    def copy(self, basis=None):
+        """Return copy of ReactionSet object (with its own stoichiometry and conversion arrays)."""
+        copy = self.__new__(self.__class__)
+        copy._basis = self._basis
+        copy._phases = self._phases
+        copy._stoichiometry = [i.copy() for i in self._stoichiometry]
+        copy._reactant_index = self._reactant_index
+        copy._chemicals = self._chemicals
+        copy._X = self._X.copy()
+        if basis: set_reaction_basis(copy, basis)
+        return copy
     
     def equilibrium(self, material, T, P, phase):
         raise NotImplementedError('equilibrium of reaction sets not implemented in BioSTEAM (yet)')
